@@ -217,6 +217,14 @@ def main(argv=None):
             print(l)
         return 1
     if infra or undecided or unstable:
+        # The verifier could not decide (lost anchor, construct outside the subset, proof hints no longer fit a rewritten
+        # function, rlimit).  Bounded stand-in: run the property's witness family against the REAL code.  A concrete failing
+        # input is a violation (it replays); finding none leaves the property undecided (exit 2) - never counted as proved.
+        reason = "; ".join([str(x)[:200] for x in (infra + [u["message"] for u in undecided] + unstable)][:3])
+        fb = replay_mod.fallback_search(prop, reason, args.repo)
+        if fb is not None:
+            print("VIOLATION property=%s replay=%s obligation=%s (verifier undecided: bounded witness family found a failing input)" % (prop, fb[0], fb[1]))
+            return 1
         return 2
     print("OK property=%s obligations=%d discharged=%d units=%s wall=%.1fs" % (
         prop, len(obs), len(obs) - len([o for o in failures if o in obs]), ",".join(units), time.time() - t0))
